@@ -72,9 +72,15 @@ def run_kani(pid, tier, seed, a):
 
     known = findings.load()
     violations, inconclusive, known_hits = [], [], []
+    # cheapest replays first; once one counterexample is reproduced the remaining failed harnesses
+    # are listed but not replayed (a replay can cost more than the verification itself)
+    results.sort(key=lambda hr: (0 if hr[0].get("slots") else 1, hr[1].get("verify_s") or 0))
+    not_replayed = []
     for h, r in results:
         if r["verdict"] == "inconclusive":
             inconclusive.append((h, r))
+        elif r["verdict"] == "violated" and (violations or known_hits) and not a.no_replay:
+            not_replayed.append((h, r))
         elif r["verdict"] == "violated":
             if a.no_replay:
                 violations.append((h, r, None))
@@ -96,6 +102,8 @@ def run_kani(pid, tier, seed, a):
 
     for h, r, kf in known_hits:
         print(f"KNOWN-FINDING: property={pid} {kf['what']}")
+    for h, r in not_replayed:
+        print(f"  also failed (not replayed, a counterexample is already reproduced): {r['short']}: " + "; ".join(f["desc"][:80] for f in r["failed"][:2]))
     if violations:
         for h, r, path in violations:
             for f in r["failed"][:3]:
